@@ -348,4 +348,30 @@ theorem accepted_object_octets_either_mode (ber : Bool) (b : Bytes) (o : SigObjD
 
 end EitherMode
 
+/-! ### exactly when, on octets (strict decoding) -/
+section Iff
+open Rpki.CmsDer Rpki.CertDer
+
+/-- **A decoded signed object validates exactly when** the digest attribute read from the octets is the SHA-256 of the
+content, the signature was made with the EE key over the DER SET OF the signed attributes, the signer identifier is the
+EE certificate's subject key identifier, and the EE certificate read from the octets validates under the issuer (C01)
+with the same validated resources. -/
+theorem object_octets_accepted_iff (b : Bytes) (o : SigObjD) (hb : AllBytes b) (hd : decodeSigObj b = some o)
+    (sigKeyOk eeSigOk : Bool) (sigInput : Bytes) (i r : RC) (now : Int) :
+    validateAt Sha.sha256N (toObj o sigKeyOk sigInput eeSigOk) i now = some r ↔
+    (Sha.sha256N o.content = o.messageDigest ∧ sigKeyOk = true ∧ sigInput = tlv 0x31 o.attrs ∧ o.sid = o.cert.ski ∧
+     validateEe (toFacts o.cert false true eeSigOk) i now = some r) := by
+  obtain ⟨hpa, _⟩ := decodeSigObj_spec b o hb hd
+  rw [validateAt_iff]
+  constructor
+  · rintro ⟨md, st, h1, h2, h3, h4, h5, h6⟩
+    have hpa' : parseAttrs true o.attrs = some (o.contentType, md, st) := h1
+    rw [hpa] at hpa'
+    simp only [Option.some.injEq, Prod.mk.injEq] at hpa'
+    exact ⟨by rw [hpa'.2.1]; exact h3, h4, h5, h2, h6⟩
+  · rintro ⟨h1, h2, h3, h4, h5⟩
+    exact ⟨o.messageDigest, o.signingTime, hpa, h4, h1, h2, h3, h5⟩
+
+end Iff
+
 end Rpki.Props.C02
